@@ -36,7 +36,11 @@ var errScriptedWrite = errors.New("scripted write error")
 // writeErrOf: the errors a datagram socket's write fails with: an expired write deadline, no buffer space, a firewall
 // rule, no route -- and an error of the harness' own
 func writeErrOf(k int) error {
-	switch k % 5 {
+	switch k % 7 {
+	case 5: // the link is not ready yet
+		return &net.OpError{Op: "write", Net: "udp", Err: os.NewSyscallError("sendto", syscall.EADDRNOTAVAIL)}
+	case 6:
+		return &net.OpError{Op: "write", Net: "udp", Err: os.NewSyscallError("sendto", syscall.EHOSTUNREACH)}
 	case 0:
 		return errScriptedWrite
 	case 1:
